@@ -16,7 +16,8 @@ import (
 func init() {
 	register(&RuleSet{
 		ID: "C14",
-		Explanation: "On endorse.RetrySubmit (the retry loop) and the attempt function (discovered: the function of package endorse that invokes VersionControl.GetChangeOps): " +
+		Explanation: "R8 (ESP) no workspace function of package endorse returns a nil error on a path on which its latest ChangeOps.ReadFile failed without ChangeOps.IsNotFound saying so. " +
+			"On endorse.RetrySubmit (the retry loop) and the attempt function (discovered: the function of package endorse that invokes VersionControl.GetChangeOps): " +
 			"R1 (ESP) a further attempt starts only after the previous attempt failed and VersionControl.RetriableError returned true for an error value derived from that attempt; " +
 			"R2 (CFG) the loop has a loop-carried integer counter incremented on every back edge and every back edge is dominated by a comparison that depends on that counter and on Context.CommitRetries and has a loop-exit edge; " +
 			"R3 (ESP) RetrySubmit returns nil only right after an attempt that returned nil; " +
@@ -32,6 +33,7 @@ func init() {
 }
 
 func runC14(c *Ctx) {
+	defer c14ReadFailures(c)
 	endorsePkg := repoPath("endorse")
 	retry := c.fn("R0", "endorse", "RetrySubmit")
 	if retry == nil {
@@ -613,4 +615,92 @@ func typeMentions(v ssa.Value, pkg, name string) bool {
 		v = mi.X
 	}
 	return namedIs(v.Type(), pkg, name)
+}
+
+// c14ReadFailures — R8: an attempt does not mistake a failed read for an absent file. In every function of package
+// endorse that works on a workspace (a ChangeOps parameter, an error result), a nil error is never returned on a
+// path on which the latest ChangeOps.ReadFile failed and ChangeOps.IsNotFound did not say "not found" for it: a
+// transient or permission error on the manifest must fail the attempt (so that it is released and retried), not
+// start it from an empty manifest that drops every entry committed before.
+func c14ReadFailures(c *Ctx) {
+	endorsePkg := repoPath("endorse")
+	isWS := func(f *ssa.Function) bool {
+		if load.RelPkg(f) != "endorse" || c.isTestFunc(f) || f.Blocks == nil || errIndex(f.Signature) < 0 {
+			return false
+		}
+		for _, p := range f.Params {
+			if namedIs(p.Type(), endorsePkg, "ChangeOps") {
+				return true
+			}
+		}
+		for _, fv := range f.FreeVars {
+			if pt, ok := fv.Type().(*types.Pointer); ok && namedIs(pt.Elem(), endorsePkg, "ChangeOps") {
+				return true
+			}
+		}
+		return false
+	}
+	reads := func(f *ssa.Function) bool {
+		for g := range c.reachable([]*ssa.Function{f}, func(g *ssa.Function) bool { return load.RelPkg(g) == "endorse" }) {
+			if g != nil && len(callsIn(g, func(call ssa.CallInstruction) bool { return invokeIs(call, endorsePkg, "ChangeOps", "ReadFile") })) > 0 {
+				return true
+			}
+		}
+		return false
+	}
+	n, nRead := 0, 0
+	for _, f := range c.P.RepoFunctions() {
+		if !isWS(f) || !reads(f) {
+			continue
+		}
+		n++
+		const bFail uint = 0
+		r := &esp.Rule{Name: "C14.R8"}
+		r.Relevant = func(g *ssa.Function) bool { return g != f && load.RelPkg(g) == "endorse" && !c.isTestFunc(g) }
+		r.Match = func(in ssa.Instruction) []esp.Ev {
+			call, ok := in.(ssa.CallInstruction)
+			if !ok {
+				return nil
+			}
+			if invokeIs(call, endorsePkg, "ChangeOps", "ReadFile") {
+				nRead++
+				return []esp.Ev{{ID: 0, Name: "ReadFile", ErrIdx: 1, BoolIdx: -1}}
+			}
+			if invokeIs(call, endorsePkg, "ChangeOps", "IsNotFound") {
+				return []esp.Ev{{ID: 1, Name: "IsNotFound", ErrIdx: -1, BoolIdx: 0}}
+			}
+			return nil
+		}
+		r.Step = func(x *esp.Ctx, s esp.State, ev esp.Ev, ph esp.Phase) (esp.State, string) {
+			switch ev.ID {
+			case 0:
+				if ph == esp.AtCall {
+					return s.Clear(bFail), ""
+				}
+				if ph == esp.Fail {
+					return s.Set(bFail), ""
+				}
+			case 1:
+				if ph == esp.Ok {
+					return s.Clear(bFail), ""
+				}
+			}
+			return s, ""
+		}
+		ei := errIndex(f.Signature)
+		r.AtReturn = func(x *esp.Ctx, s esp.State, rets []esp.Abs) string {
+			if rets[ei] != esp.NonZero && s.Has(bFail) {
+				return "R8: the function may return a nil error although its latest ChangeOps.ReadFile failed and was not found to be 'not found': a read failure is treated as an absent (empty) file"
+			}
+			return ""
+		}
+		e := c.engine(r)
+		e.Run(f, esp.State{})
+		name := load.FuncName(f)
+		if c.reportEngine(e, "R8", func(v *esp.Violation) string { return name + ":read failure reported" }) == 0 {
+			c.S.OK("R8", name+":read failure reported", c.pos(f.Pos()), fmt.Sprintf("no nil return after a failed read that is not 'not found' (%d configurations)", e.Configs), true)
+		}
+	}
+	c.S.Floor("R8", "workspace functions of package endorse that read files", 3, n)
+	c.S.Floor("R8", "ChangeOps.ReadFile calls reached", 2, nRead)
 }
